@@ -10,7 +10,7 @@ echo "|---|---|---|---|" >> $out
 for d in seeded/*/; do
   id=$(basename $d)
   [ -f $d/patch.diff ] || continue
-  prop=$(python3 -c "import json;print(json.load(open('$d/meta.json'))['breaks_property'])")
+  prop=$(python3 -c "import json;d=json.load(open('$d/meta.json'));print(d.get('check_property') or d['breaks_property'])")
   if ! git -C /repo diff --quiet; then echo "repo dirty"; exit 2; fi
   if ! git -C /repo apply $PWD/$d/patch.diff 2>/dev/null; then
     if ! git -C /repo apply -3 $PWD/$d/patch.diff 2>/dev/null; then
